@@ -6,12 +6,10 @@
     The two sides compare names differently -- the implementation compares (prefix, local part) pairs, the
     specification the qualified-name strings --: the pairs that the parser builds are [pair_good] (no colon inside a
     part), on which [qn] is injective.
-    They differ on two shapes, excluded by the per-element condition [attrs_okb]:
-      - a #REQUIRED definition whose attribute is not among the specified non-namespace attributes: the
-        implementation materialises an attribute without value (listed finding D36);
-      - a definition with a default value whose name is a SPECIFIED namespace declaration (xmlns / xmlns:p): the
-        implementation tests the defaults against [attributes_specified()], which leaves the namespace declarations
-        out, and lists the declaration twice (finding of this area). *)
+    They differ on one shape, excluded by the per-element condition [attrs_okb]: a #REQUIRED definition whose
+    attribute is not specified: the implementation materialises an attribute without value (listed finding D36).
+    (D65 -- a default value for a SPECIFIED namespace declaration was listed as a second attribute -- is repaired in
+    703c414: [Element::attributes] now tests the defaults against [namespace_attributes()] as well.) *)
 From Coq Require Import List NArith Arith Lia Bool Permutation.
 From XmlRs Require Import Base.CPred Spec.XmlChars Model.Peg Gen.XmlcharGen Gen.GrammarXmlGen Model.ParseActions Model.Info Model.DomView
      Proofs.PipelineTotal Proofs.DisplayLex Proofs.DisplayDtd Proofs.ParseInvElem Proofs.ParseInvBuild Proofs.ParseInvDtd
@@ -234,14 +232,12 @@ Qed.
 Lemma filter_map_comm {A B} (g : A -> B) (p : B -> bool) (l : list A) : filter p (map g l) = map g (filter (fun x => p (g x)) l).
 Proof. induction l as [|x l IH]; [reflexivity|]. cbn [map filter]. destruct (p (g x)); cbn [map]; now rewrite IH. Qed.
 
-(** the condition on one element: no #REQUIRED definition without a specified (non-namespace) attribute,
-    no default value for a specified namespace declaration *)
+(** the condition on one element: no #REQUIRED definition without a specified attribute (D36) *)
 Definition attrs_okb (sub : list W.decl) (el : str) (atts : list (str * list W.avpiece)) : bool :=
   forallb (fun x : str * W.atttype * W.attdefault =>
              match snd x with
-             | W.ADRequired => W.mem (fst (fst x)) (map fst (filter (fun a => negb (is_ns_name (fst a))) atts))
-             | W.ADValue _ _ => negb (W.mem (fst (fst x)) (map fst (filter (fun a => is_ns_name (fst a)) atts)))
-             | W.ADImplied => true
+             | W.ADRequired => W.mem (fst (fst x)) (map fst atts)
+             | _ => true
              end) (W.attdefs_of sub el).
 
 (** ** the rows of an element *)
@@ -257,22 +253,23 @@ Definition has_name (items : list vattr) (d : attdef) : bool :=
 Lemma has_name_app a b d : has_name (a ++ b) d = has_name a d || has_name b d.
 Proof. apply existsb_app. Qed.
 
-Lemma add_defaults_spec : forall defs S A,
-  (forall d, In d defs -> xd_value d = XdRequired -> has_name S d = true) ->
+Lemma add_defaults_spec : forall defs S N A,
+  (forall d, In d defs -> xd_value d = XdRequired -> has_name S d || has_name N d = true) ->
   (forall d, In d defs -> has_name A d = false) ->
   (forall d, In d defs -> pair_good (xd_local d) (xd_prefix d)) ->
   NoDup (map def_name defs) ->
-  add_defaults (S ++ A) defs = S ++ A ++ map vattr_of_def (filter (fun d => is_value d && negb (has_name S d)) defs).
+  add_defaults (S ++ A) N defs = S ++ A ++ map vattr_of_def (filter (fun d => is_value d && negb (has_name S d || has_name N d)) defs).
 Proof.
-  induction defs as [|d defs IH]; intros S A Hreq HA Hg Hnd; [cbn [add_defaults filter map]; now rewrite app_nil_r|].
-  inversion Hnd as [|? ? Hd Hnd']; subst. cbn [add_defaults filter]. fold (has_name (S ++ A) d). rewrite has_name_app, (HA d (or_introl eq_refl)), orb_false_r.
+  induction defs as [|d defs IH]; intros S N A Hreq HA Hg Hnd; [cbn [add_defaults filter map]; now rewrite app_nil_r|].
+  inversion Hnd as [|? ? Hd Hnd']; subst. cbn [add_defaults filter]. fold (has_name (S ++ A) d) (has_name N d). rewrite has_name_app, (HA d (or_introl eq_refl)), orb_false_r.
   assert (Hrest : forall A', (forall d', In d' defs -> has_name A' d' = false) ->
-            add_defaults (S ++ A') defs = S ++ A' ++ map vattr_of_def (filter (fun d0 => is_value d0 && negb (has_name S d0)) defs)).
+            add_defaults (S ++ A') N defs = S ++ A' ++ map vattr_of_def (filter (fun d0 => is_value d0 && negb (has_name S d0 || has_name N d0)) defs)).
   { intros A' HA'. apply IH; [intros d' Hd' Hr; apply Hreq; [right; exact Hd'|exact Hr]|exact HA'|intros d' Hd'; apply Hg; right; exact Hd'|exact Hnd']. }
+  rewrite <- andb_assoc, <- negb_orb.
   unfold is_implied, is_value. destruct (xd_value d) as [| |fx vs] eqn:Ev; cbn [negb andb].
   - rewrite (Hreq d (or_introl eq_refl) Ev). cbn [negb andb]. apply Hrest. intros d' Hd'. apply HA. right. exact Hd'.
   - apply Hrest. intros d' Hd'. apply HA. right. exact Hd'.
-  - destruct (has_name S d) eqn:ES; cbn [negb].
+  - destruct (has_name S d || has_name N d) eqn:ES; cbn [negb].
     + apply Hrest. intros d' Hd'. apply HA. right. exact Hd'.
     + cbn [map]. rewrite <- app_assoc. rewrite (Hrest (A ++ [vattr_of_def d])).
       * rewrite <- app_assoc. reflexivity.
@@ -339,9 +336,9 @@ Proof.
   rewrite (row_value defs sdefs (vattr_of_def d) _ HR Gd Hvl). reflexivity.
 Qed.
 
-Lemma defaults_rows defs sdefs (S_items : list vattr) (names : list str) : Forall2 R defs sdefs -> forall D Sd, Forall2 R D Sd ->
-  (forall d, In d D -> is_value d = true -> has_name S_items d = W.mem (def_name d) names) ->
-  map (fun x => attr_row ents defs (vattr_of_def x)) (filter (fun d => is_value d && negb (has_name S_items d)) D)
+Lemma defaults_rows defs sdefs (tst : attdef -> bool) (names : list str) : Forall2 R defs sdefs -> forall D Sd, Forall2 R D Sd ->
+  (forall d, In d D -> is_value d = true -> tst d = W.mem (def_name d) names) ->
+  map (fun x => attr_row ents defs (vattr_of_def x)) (filter (fun d => is_value d && negb (tst d)) D)
   = map (fun x => lift_row (srow sdefs false x))
         (flat_map (fun '(nm, _, df) => match df with W.ADValue _ v => if W.mem nm names then [] else [(nm, v)] | _ => [] end) Sd).
 Proof.
@@ -391,8 +388,17 @@ Proof.
                         (map vattr_of (filter (fun x' => negb (attr_namespace x')) attrs')) (map att_nm (filter (fun x => negb (nsb x)) a))).
   { clear - Hspec. induction Hspec as [|x x' l l' (_ & E2 & E3 & E4) _ IH]; [constructor|]. cbn [filter]. rewrite E4.
     destruct (nsb x); cbn [negb map]; [exact IH|constructor; [split; assumption|exact IH]]. }
+  assert (Hns : Forall2 (fun v n0 => pair_good (va_local v) (va_prefix v) /\ va_name v = n0)
+                        (map vattr_of (filter attr_namespace attrs')) (map att_nm (filter nsb a))).
+  { clear - Hspec. induction Hspec as [|x x' l l' (_ & E2 & E3 & E4) _ IH]; [constructor|]. cbn [filter]. rewrite E4.
+    destruct (nsb x); cbn [map]; [constructor; [split; assumption|exact IH]|exact IH]. }
+  assert (Hgd0 : forall d, pair_good (xd_local d) (xd_prefix d) ->
+            has_name (map vattr_of (filter (fun x' => negb (attr_namespace x')) attrs')) d || has_name (map vattr_of (filter attr_namespace attrs')) d
+            = W.mem (def_name d) (map att_nm a)).
+  { intros d Hg. rewrite (has_name_mem _ _ d Hg Hnn), (has_name_mem _ _ d Hg Hns).
+    rewrite (mem_perm _ _ _ (Permutation_map att_nm (Permutation_sym (filter_partition_perm nsb a)))), map_app, mem_app. apply orb_comm. }
   (* the conditions of [attrs_okb] on the definitions *)
-  unfold attrs_okb in Hokb. fold sdefs in Hokb. rewrite !filter_map_comm, !map_map in Hokb. cbn [x_att fst] in Hokb. fold att_nm in Hokb.
+  unfold attrs_okb in Hokb. fold sdefs in Hokb. rewrite !map_map in Hokb. cbn [x_att fst] in Hokb. fold att_nm in Hokb.
   change (fun x => att_nm x) with att_nm in Hokb.
   assert (Hnds : NoDup (map (fun x : str * W.atttype * W.attdefault => fst (fst x)) sdefs)) by apply RT.attdefs_nodup.
   assert (Hnames : map def_name defs = map (fun x : str * W.atttype * W.attdefault => fst (fst x)) sdefs).
@@ -401,11 +407,13 @@ Proof.
   { clear - HR. induction HR as [|v y l l' (Gv & _) _ IH]; intros d Hd; [destruct Hd|]. destruct Hd as [<-|Hd]; [exact Gv|exact (IH d Hd)]. }
   (* Element::attributes *)
   assert (Hadd : element_attributes defs attrs' = map vattr_of (filter (fun x' => negb (attr_namespace x')) attrs')
-                   ++ map vattr_of_def (filter (fun d => is_value d && negb (has_name (map vattr_of (filter (fun x' => negb (attr_namespace x')) attrs')) d)) defs)).
+                   ++ map vattr_of_def (filter (fun d => is_value d && negb (has_name (map vattr_of (filter (fun x' => negb (attr_namespace x')) attrs')) d
+                                                                                  || has_name (map vattr_of (filter attr_namespace attrs')) d)) defs)).
   { unfold element_attributes.
-    pose proof (add_defaults_spec defs (map vattr_of (filter (fun x' => negb (attr_namespace x')) attrs')) []) as Hs. rewrite app_nil_r in Hs. cbn [app] in Hs.
+    pose proof (add_defaults_spec defs (map vattr_of (filter (fun x' => negb (attr_namespace x')) attrs')) (map vattr_of (filter attr_namespace attrs')) []) as Hs.
+    rewrite app_nil_r in Hs. cbn [app] in Hs.
     apply Hs; [|intros; reflexivity|exact Hgd|rewrite Hnames; exact Hnds].
-    intros d Hd Hr. rewrite (has_name_mem _ _ d (Hgd d Hd) Hnn).
+    intros d Hd Hr. rewrite (Hgd0 d (Hgd d Hd)).
     clear - HR Hokb Hd Hr. induction HR as [|v y l l' Hvy _ IH]; [destruct Hd|]. cbn [forallb] in Hokb. apply andb_prop in Hokb. destruct Hokb as [Hy Hl].
     destruct Hd as [<-|Hd]; [|exact (IH Hl Hd)]. destruct Hvy as (_ & Nv & _ & Dv). rewrite Hr in Dv. destruct (snd y); try destruct Dv. unfold def_name. rewrite <- Nv. exact Hy. }
   (* the specification's rows *)
@@ -422,14 +430,9 @@ Proof.
     + (* defaults *)
       rewrite EL2, !map_map. unfold W.defaulted_atts. fold sdefs. apply Permutation_refl'.
       assert (Hmem : forall d, In d defs -> is_value d = true ->
-                has_name (map vattr_of (filter (fun x' => negb (attr_namespace x')) attrs')) d = W.mem (def_name d) (map fst (map x_att a))).
-      { intros d Hd Hv. rewrite (has_name_mem _ _ d (Hgd d Hd) Hnn). rewrite map_map. cbn [x_att fst]. fold att_nm. change (fun x => att_nm x) with att_nm.
-        rewrite (mem_perm _ _ _ (Permutation_map att_nm (Permutation_sym (filter_partition_perm nsb a)))), map_app, mem_app.
-        assert (E : W.mem (def_name d) (map att_nm (filter nsb a)) = false).
-        { clear - HR Hokb Hd Hv. induction HR as [|v y l l' Hvy _ IH]; [destruct Hd|]. cbn [forallb] in Hokb. apply andb_prop in Hokb. destruct Hokb as [Hy Hl].
-          destruct Hd as [<-|Hd]; [|exact (IH Hl Hd)]. destruct Hvy as (_ & Nv & _ & Dv). unfold is_value in Hv. destruct (xd_value v); try discriminate Hv.
-          destruct (snd y); try destruct Dv. unfold def_name. rewrite <- Nv. apply negb_true_iff. exact Hy. }
-        rewrite E. reflexivity. }
+                (fun d0 => has_name (map vattr_of (filter (fun x' => negb (attr_namespace x')) attrs')) d0 || has_name (map vattr_of (filter attr_namespace attrs')) d0) d
+                = W.mem (def_name d) (map fst (map x_att a))).
+      { intros d Hd _. cbv beta. rewrite (Hgd0 d (Hgd d Hd)), map_map. reflexivity. }
       exact (defaults_rows defs sdefs _ _ HR defs sdefs HR Hmem).
   - (* distinct names *)
     rewrite map_app. apply RT.nodup_app.
